@@ -51,7 +51,7 @@ func TestCheck(t *testing.T) {
 	}
 	n := int64(cfg.Pick(300, 400))
 	nTyped := int64(cfg.Pick(500, 2000))
-	nNil := int64(cfg.Pick(200, 2000))
+	nNil := int64(cfg.Pick(200, 10000))
 	rep.Require("nilchunk_cases", 50)
 	rep.Require("nilchunk_kind_nil-next-to-real-chunks", 20)
 	rep.Require("nilchunk_kind_only-nil-chunks", 5)
